@@ -10,6 +10,8 @@ Generated/ParsDispatch.lean, regenerated from /repo on every run: every `decide`
 -/
 import StarsimModel.Lemmas.Pars
 import StarsimModel.Lemmas.ParsDeep
+import StarsimModel.Lemmas.ParsRefs
+import StarsimModel.Generated.ParsRefs
 
 namespace StarsimModel.C17
 open StarsimModel.Pars
@@ -546,5 +548,208 @@ example : buildNdict [] ["sir", "sis", "sir"] = .error .value ∧ buildNdict [] 
 example : updateParsKw .asis exMod [("dur_inf", .number, 10)] [("dur_inf", .number, 11), ("dt", .number, 12)] =
     .ok ⟨[("init_prev", ⟨.dist true .plain, .isNew 0⟩), ("dur_inf", ⟨.dist false .plain, .oldFirst 11⟩),
           ("waning", ⟨.timepar false, .isNew 2⟩), ("log", ⟨.num, .isNew 3⟩)], [], [("dt", 12)]⟩ := by decide
+
+/-! ### Round 3 — name-keyed parameters resolved against the sim (per-network `beta`), ownership of spec dicts
+
+The key comparison of `Infection.validate_beta`, `ss.standardize_netkey` and the table "can the caller's dict be mutated"
+are regenerated (Generated/ParsRefs.lean): weakening either direction of the comparison, or letting `make_dist` /
+`update_pars` / `Time.update` / `Pars.update` work on the caller's object, stops the theorems below from elaborating. -/
+
+section Refs
+open StarsimModel.ParsRefs
+
+deriving instance DecidableEq for Except
+
+/-- the regenerated key comparison of `validate_beta` -/
+def genCheck : KeyCheck := ⟨Gen.betaMissingRaises, Gen.betaExtraRaises⟩
+/-- the regenerated `ss.standardize_netkey` -/
+def genStd : String → String := stdKey Gen.netkeyLower Gen.netkeySuffix
+/-- `validate_beta` + what `infect()` reads, as regenerated -/
+def genResolve {α} (nets : List String) (b : Beta α) := resolve genStd genCheck Gen.betaBadType nets b
+
+theorem genCheck_both : genCheck = ⟨true, true⟩ := by decide
+
+/-- The regenerated structure facts the model of `resolve` relies on: the dict branch stores every supplied entry under its
+    standardized key, the scalar branch serves every network, the validation runs at init, `infect` reads by standardized key,
+    an unsupported type is a TypeError. -/
+theorem C17_beta_structure :
+    Gen.betaDictStandardizes = true ∧ Gen.betaDictKeepsEntries = true ∧ Gen.betaScalarAllNetworks = true ∧
+    Gen.betaValidatedAtInit = true ∧ Gen.betaInfectReadsStd = true ∧ Gen.betaBadType = .type := by decide
+
+/-- **An entry that names no network of the sim is rejected** (it could never take effect): for every normalisation `f`,
+    every set of networks and every supplied dict. -/
+theorem C17_beta_unknown_network_rejected {α} (f : String → String) (bt : Err) (nets : List String)
+    (items : List (String × Entry α)) (h : ∃ it ∈ items, f it.1 ∉ nets.map f) :
+    ∀ m, resolve f genCheck bt nets (.dict items) ≠ .ok m := by
+  intro m
+  rw [genCheck_both]
+  obtain ⟨it, hit, hn⟩ := h
+  have hany : (items.map (fun it => f it.1)).any (fun k => !(nets.map f).contains k) = true := by
+    simp only [List.any_eq_true, List.mem_map]
+    exact ⟨f it.1, ⟨it, hit, rfl⟩, by simpa using hn⟩
+  simp only [resolve, Bool.true_and, hany]
+  split <;> simp
+
+/-- **A network without an entry is rejected** (never a KeyError later, never a default). -/
+theorem C17_beta_missing_network_rejected {α} (f : String → String) (bt : Err) (nets : List String)
+    (items : List (String × Entry α)) (h : ∃ n ∈ nets, f n ∉ items.map (fun it => f it.1)) :
+    resolve f genCheck bt nets (.dict items) = .error .value := by
+  rw [genCheck_both]
+  obtain ⟨n, hn, hk⟩ := h
+  have hany : (nets.map f).any (fun n => !(items.map (fun it => f it.1)).contains n) = true := by
+    simp only [List.any_eq_true, List.mem_map]
+    exact ⟨f n, ⟨n, hn, rfl⟩, by simpa using hk⟩
+  simp only [resolve, Bool.true_and, hany, if_true]
+
+/-- a successful resolution passed both directions of the comparison -/
+theorem resolve_ok_inv {α} (f : String → String) (bt : Err) (nets : List String) (items : List (String × Entry α))
+    (m : List (String × Option (α × α))) (h : resolve f ⟨true, true⟩ bt nets (.dict items) = .ok m) :
+    (∀ n ∈ nets, f n ∈ keysOfItems f items) ∧ (∀ it ∈ items, f it.1 ∈ nets.map f) ∧
+    m = (nets.map f).map (fun n => (n, betaLookup f items n)) := by
+  simp only [resolve, Bool.true_and] at h
+  split at h
+  · simp at h
+  · rename_i h1
+    split at h
+    · simp at h
+    · rename_i h2
+      refine ⟨?_, ?_, ?_⟩
+      · intro n hn
+        simp only [List.any_eq_true, not_exists, not_and, List.mem_map] at h1
+        have := h1 (f n) ⟨n, hn, rfl⟩
+        simpa [keysOfItems] using this
+      · intro it hit
+        simp only [List.any_eq_true, not_exists, not_and, List.mem_map] at h2
+        have := h2 (f it.1) ⟨it, hit, rfl⟩
+        simpa using this
+      · injection h with h; exact h.symm
+
+/-- **Applied or rejected, per entry** (partial: standardized keys pairwise distinct).  If the sim initialises, every supplied
+    entry is the value `infect()` reads for a network of the sim — under the entry's standardized key, in both directions. -/
+theorem C17_beta_entries_applied_partial {α} (f : String → String) (bt : Err) (nets : List String)
+    (items : List (String × Entry α)) (m : List (String × Option (α × α)))
+    (hnd : (items.map (fun it => f it.1)).Nodup)
+    (h : resolve f genCheck bt nets (.dict items) = .ok m) :
+    ∀ it ∈ items, (f it.1, some it.2.eff) ∈ m := by
+  rw [genCheck_both] at h
+  obtain ⟨_, hex, hm⟩ := resolve_ok_inv f bt nets items m h
+  intro it hit
+  obtain ⟨k, e⟩ := it
+  have hl := betaLookup_mem f items (by simpa [keysOfItems] using hnd) k e hit
+  subst hm
+  refine List.mem_map.mpr ⟨f k, hex (k, e) hit, ?_⟩
+  simp [hl]
+
+/-- … the full statement fails on the code as it is: two spellings of ONE network in a dict (`random` and `randomnet`) are
+    both accepted and the earlier entry is silently overwritten (known finding `C17-beta-alias-keys`). -/
+theorem C17_beta_entries_applied_counterexample :
+    ∃ (nets : List String) (items : List (String × Entry Nat)) (m : List (String × Option (Nat × Nat))),
+      genResolve nets (.dict items) = .ok m ∧ ∃ it ∈ items, (genStd it.1, some it.2.eff) ∉ m :=
+  ⟨["randomnet"], [("random", .scalar 1), ("randomnet", .scalar 2)], [("random", some (2, 2))],
+    by decide +kernel, ("random", .scalar 1), by simp, by decide +kernel⟩
+
+/-- **Every network is served**: after a successful resolution `infect()` finds a value for every network of the sim, in
+    network order (no KeyError at run time, no network silently without transmission). -/
+theorem C17_beta_every_network_served {α} (f : String → String) (bt : Err) (nets : List String)
+    (items : List (String × Entry α)) (m : List (String × Option (α × α)))
+    (h : resolve f genCheck bt nets (.dict items) = .ok m) :
+    m.map (·.1) = nets.map f ∧ ∀ p ∈ m, p.2.isSome = true := by
+  rw [genCheck_both] at h
+  obtain ⟨hmi, _, hm⟩ := resolve_ok_inv f bt nets items m h
+  subst hm
+  refine ⟨by simp [List.map_map, Function.comp_def], ?_⟩
+  intro p hp
+  simp only [List.mem_map] at hp
+  obtain ⟨n, ⟨n0, hn0, rfl⟩, rfl⟩ := hp
+  exact betaLookup_isSome f items (f n0) (hmi n0 hn0)
+
+/-- **Spellings of a uniform beta**: a dict that gives every network the value `v` (as a scalar or as `[v, v]`, under any
+    spelling of the network names, in any order, with repeats) resolves to exactly what the scalar `v` resolves to. -/
+theorem C17_beta_scalar_spellings {α} (f : String → String) (bt : Err) (nets : List String) (v : α)
+    (items : List (String × Entry α)) (hall : ∀ it ∈ items, it.2.eff = (v, v))
+    (hcover : ∀ n ∈ nets, f n ∈ items.map (fun it => f it.1)) (hknown : ∀ it ∈ items, f it.1 ∈ nets.map f) :
+    resolve f genCheck bt nets (.dict items) = resolve f genCheck bt nets (.scalar v) := by
+  have h1 : (nets.map f).any (fun n => !(items.map (fun it => f it.1)).contains n) = false := by
+    rw [Bool.eq_false_iff]; intro h
+    simp only [List.any_eq_true, List.mem_map] at h
+    obtain ⟨_, ⟨n, hn, rfl⟩, hc⟩ := h
+    have := hcover n hn
+    simp_all
+  have h2 : (items.map (fun it => f it.1)).any (fun k => !(nets.map f).contains k) = false := by
+    rw [Bool.eq_false_iff]; intro h
+    simp only [List.any_eq_true, List.mem_map] at h
+    obtain ⟨_, ⟨it, hit, rfl⟩, hc⟩ := h
+    have := hknown it hit
+    simp_all
+  simp only [resolve, h1, h2, Bool.and_false, Bool.false_eq_true, if_false, List.map_map]
+  congr 1
+  apply List.map_congr_left
+  intro n hn
+  have := betaLookup_const f items (v, v) hall (f n) (by simpa [keysOfItems] using hcover n hn)
+  simp [this]
+
+/-- **Key spellings**: the outcome depends on the supplied network names only through `ss.standardize_netkey`
+    (`random` ≡ `randomnet` ≡ `RandomNet`). -/
+theorem C17_beta_key_spellings {α} (f : String → String) (chk : KeyCheck) (bt : Err) (nets : List String)
+    (items items' : List (String × Entry α))
+    (h : items.map (fun it => (f it.1, it.2)) = items'.map (fun it => (f it.1, it.2))) :
+    resolve f chk bt nets (.dict items) = resolve f chk bt nets (.dict items') := by
+  rw [resolve_dict_std, resolve_dict_std, h]
+
+/-- a value that is neither a scalar nor a dict is a TypeError; a scalar serves every network in both directions -/
+theorem C17_beta_scalar_and_bad {α} (nets : List String) (v : α) :
+    genResolve nets (.bad : Beta α) = .error .type ∧
+    genResolve nets (.scalar v) = .ok (nets.map (fun n => (genStd n, some (v, v)))) := by
+  constructor
+  · show resolve genStd genCheck Gen.betaBadType nets .bad = _
+    have : Gen.betaBadType = .type := by decide
+    simp [resolve, this]
+  · rfl
+
+/-- Non-vacuity on the regenerated normalisation: exact keys in three spellings are accepted and every entry is served; an
+    extra entry (`mf` without an MF network; a misspelt `randomm`) and a missing entry are ValueErrors. -/
+example :
+    genResolve ["randomnet", "mfnet"] (.dict [("random", .scalar 1), ("MFNet", .pair 2 3)] : Beta Nat)
+      = .ok [("random", some (1, 1)), ("mf", some (2, 3))] ∧
+    genResolve ["randomnet"] (.dict [("random", .scalar 1), ("mf", .scalar 2)] : Beta Nat) = .error .value ∧
+    genResolve ["randomnet"] (.dict [("randomnet", .scalar 1), ("randomm", .scalar 2)] : Beta Nat) = .error .value ∧
+    genResolve ["randomnet", "mfnet"] (.dict [("mf", .scalar 2)] : Beta Nat) = .error .value := by
+  decide +kernel
+
+/-- **Caller-supplied dicts are never consumed**: none of the functions that receive a user dict (`make_dist`,
+    `Module.update_pars`, `Time.update`, `Pars.update`, `Pars._update_dist`, `Pars._update_timepar`) can mutate the caller's
+    object before rebinding the name to a private copy (regenerated ownership table). -/
+theorem C17_caller_dicts_not_consumed : ∀ e ∈ Gen.argMutated, e.2 = false := by decide
+
+/-- whether `make_dist` mutates the caller's spec (absent from the table = unknown = assume it does) -/
+def genMakeDistMutates : Bool := (lookupFlag "make_dist" Gen.argMutated).getD true
+
+/-- **A spec dict is left as it was.** -/
+theorem C17_make_dist_input_unchanged (spec : List (String × Nat)) : (makeDist genMakeDistMutates spec).2 = spec := by
+  have : genMakeDistMutates = false := by decide
+  rw [this]; unfold makeDist; split <;> rfl
+
+/-- **The same spec object configures every parameter identically**: using one dict for two parameters gives the second
+    exactly what the first got (a new distribution of the supplied type — never the old type with stray entries), and the
+    dict is unchanged afterwards. -/
+theorem C17_spec_dict_reuse (spec : List (String × Nat)) :
+    (useTwice genMakeDistMutates spec).2.1 = (useTwice genMakeDistMutates spec).1 ∧
+    (useTwice genMakeDistMutates spec).2.2 = spec := by
+  have : genMakeDistMutates = false := by decide
+  rw [this]
+  unfold useTwice updateDistDict makeDist
+  cases h : findKey "type" spec <;> simp [h]
+
+/-- … and this is exactly what the ownership fact buys: a `make_dist` that pops from the caller's dict gives the second
+    parameter the OLD distribution type with the remaining entries as parameters. -/
+theorem C17_spec_dict_reuse_needs_copy :
+    ∃ spec, (useTwice true spec).1 = .made ⟨7, [("loc", 8)]⟩ ∧ (useTwice true spec).2.1 = .oldSet [("loc", 8)] ∧
+      (useTwice true spec).2.2 ≠ spec :=
+  ⟨[("type", 7), ("loc", 8)], by decide⟩
+
+example : useTwice genMakeDistMutates [("type", 7), ("loc", 8)] =
+    (.made ⟨7, [("loc", 8)]⟩, .made ⟨7, [("loc", 8)]⟩, [("type", 7), ("loc", 8)]) := by decide
+
+end Refs
 
 end StarsimModel.C17
